@@ -1041,3 +1041,8 @@ M('C12', 'safediv-sets-thread-context', QE,
   ('R-SHARED', 'safediv'))
 T('C12', 'twin-safediv-local-context', QE,
   "    if y == 0:\n        return ZERO\n    return x / y", "    if y == 0:\n        return ZERO\n    with decimal.localcontext() as ctx:\n        ctx.prec = 28\n        return x / y")
+T('C02', 'twin-no-groups-early-return', QX,
+  "        # Iterate over all the aggregations.\n", "        if not aggregates:\n            return result_types, []\n\n        # Iterate over all the aggregations.\n")
+M('C02', 'null-row-taken-for-empty-table', QX,
+  "        # Iterate over all the aggregations.\n", "        if context is None:\n            return result_types, []\n\n        # Iterate over all the aggregations.\n",
+  ('R-AGGPROTO', 'execute_select'))
